@@ -789,7 +789,8 @@ def run(rep, tier):
             rep.broken.append(str(ex))
     # the cached white-space bitmap is also exercised by the byte-level evaluation (consecutive SkipOne calls): the
     # shape rule on the mask shift is decided together with it
-    rep.corroborate('E3.shift-range', 'E5.skip-extent')
+    # (the shift rule itself is not paired: the defect it exists for needs a white-space run that starts exactly two bytes
+    # before the end of the cached block - only its instance floor is)
     rep.corroborate_floor('C11: cached-bitmap', 'E5.skip-extent')
     rep.trust('clang 14 front end')
     rep.assumptions += [
